@@ -74,8 +74,12 @@ def _two_sided(prog, rep, qual):
             if sides or on_points:
                 found = True
                 ok = sides == {'low', 'high'}
+                # exactly one side found is the violation (the one-sided
+                # box test); a test on the points whose sides are not
+                # visible here (a predicate helper) is not decided
                 rep.add('P-two-sided', qual, paths.src(mod, node.test),
-                        'ok' if ok else 'violation',
+                        'ok' if ok else ('violation' if sides
+                                         else 'unknown'),
                         '' if ok else 'the outside-the-box test must cover '
                         'both a - x and x - b and skip the point (sides '
                         'found: %s)' % sorted(sides),
